@@ -22,9 +22,23 @@ fn tid() -> u64 {
     s.trim_start_matches("ThreadId(").trim_end_matches(')').parse().unwrap_or(0)
 }
 
+/// OS thread ids of the reloader threads (rust thread id ↦ kernel tid), to tell a *dead* reloader thread
+/// (its task directory is gone) from a slow one without waiting for a time-out.
+static HR_OS_TID: std::sync::Mutex<BTreeMap<u64, u64>> = std::sync::Mutex::new(BTreeMap::new());
+
+fn os_tid() -> Option<u64> {
+    // `/proc/thread-self` -> `<pid>/task/<tid>`
+    let l = std::fs::read_link("/proc/thread-self").ok()?;
+    l.file_name()?.to_str()?.parse().ok()
+}
+
 fn yield_hook(tag: &'static str) {
     match tag {
-        "hr-thread-before-ready" => { HR_THREADS.lock().unwrap_or_else(|e| e.into_inner()).insert(tid(), true); }
+        "hr-thread-before-ready" => {
+            let t = tid();
+            { let mut m = HR_OS_TID.lock().unwrap_or_else(|e| e.into_inner()); if !m.contains_key(&t) { if let Some(o) = os_tid() { m.insert(t, o); } } }
+            HR_THREADS.lock().unwrap_or_else(|e| e.into_inner()).insert(t, true);
+        }
         "hr-thread-after-ready" => { HR_THREADS.lock().unwrap_or_else(|e| e.into_inner()).insert(tid(), false); }
         _ => {}
     }
@@ -107,7 +121,10 @@ impl WorldExec {
         let (Some(t), Fe::Shared(c), Some(tx)) = (self.hr_thread, &self.fe, self.src.sender()) else { return true };
         let t0 = std::time::Instant::now();
         let mut stable = 0;
+        let mut spins = 0u32;
         while t0.elapsed().as_secs() < self.wait_secs {
+            spins = spins.wrapping_add(1);
+            if spins % 256 == 0 && !self.reloader_alive() { return false; }
             let quiet = tx.verif_pending() == 0 && c.verif_msgs_pending() == Some(0)
                 && HR_THREADS.lock().unwrap_or_else(|e| e.into_inner()).get(&t).copied() == Some(true);
             if quiet { stable += 1; if stable >= 2 { return true; } } else { stable = 0; }
@@ -129,13 +146,28 @@ impl WorldExec {
                 c.hot_reload();
                 let _ = tx.send(());
             });
-            match rx.recv_timeout(std::time::Duration::from_secs(self.wait_secs)) {
-                Ok(()) => {}
-                Err(std::sync::mpsc::RecvTimeoutError::Timeout) => { self.leak = true; return "sync-timeout".into(); }
-                Err(std::sync::mpsc::RecvTimeoutError::Disconnected) => return "panic".into(),
+            let t0 = std::time::Instant::now();
+            loop {
+                match rx.recv_timeout(std::time::Duration::from_millis(2)) {
+                    Ok(()) => break,
+                    Err(std::sync::mpsc::RecvTimeoutError::Timeout) => {
+                        // the reloader thread is gone (its caller will never be answered), or it is alive and silent for too long
+                        if !self.reloader_alive() || t0.elapsed().as_secs() >= self.wait_secs { self.leak = true; return "sync-timeout".into(); }
+                    }
+                    Err(std::sync::mpsc::RecvTimeoutError::Disconnected) => return "panic".into(),
+                }
             }
         }
         if self.sync() { "ok".into() } else { "sync-timeout".into() }
+    }
+
+    /// false once the reloader thread of this cache has exited (e.g. killed by a panic)
+    pub fn reloader_alive(&self) -> bool {
+        let Some(t) = self.hr_thread else { return true };
+        match HR_OS_TID.lock().unwrap_or_else(|e| e.into_inner()).get(&t).copied() {
+            Some(o) => std::path::Path::new(&format!("/proc/self/task/{o}")).exists(),
+            None => true,
+        }
     }
 
     fn any(&self) -> AnyCache<'_> {
